@@ -34,4 +34,11 @@ MUTANTS = [
     m("c17-twin-welford-form", None, '        adapt_state["mean"] += pos_minus_mean / adapt_state["iter"]\n        adapt_state["sum_diff_sq"]', '        adapt_state["mean"] *= 1 - 1 / adapt_state["iter"]\n        adapt_state["mean"] += chain_state.pos / adapt_state["iter"]\n        adapt_state["sum_diff_sq"]', twin=True),
     m("c17-twin-smoothing-power", None, '        smoothing_weight = (1 / adapt_state["iter"]) ** self.iter_decay_coeff', '        smoothing_weight = adapt_state["iter"] ** (-self.iter_decay_coeff)', twin=True),
     m("c17-twin-merge-form", None, '                    mean_est *= n_iter_prev\n                    mean_est += adapt_state["iter"] * adapt_state["mean"]\n                    mean_est /= n_iter\n                    var_est +=', '                    mean_est += (adapt_state["mean"] - mean_est) * adapt_state["iter"] / n_iter\n                    var_est +=', twin=True),
+    m("c17-target-or-default", "R4", '        if self.log_step_size_reg_target is None:\n            adapt_state["log_step_size_reg_target"] = log(10 * init_step_size)\n        else:\n            adapt_state["log_step_size_reg_target"] = self.log_step_size_reg_target\n', '        adapt_state["log_step_size_reg_target"] = self.log_step_size_reg_target or log(10 * init_step_size)\n'),
+    m("c17-target-truthiness-branch", "R4", "        if self.log_step_size_reg_target is None:\n            adapt_state[\"log_step_size_reg_target\"] = log(10 * init_step_size)", "        if not self.log_step_size_reg_target:\n            adapt_state[\"log_step_size_reg_target\"] = log(10 * init_step_size)"),
+    m("c17-default-target-without-10", "R4", "            adapt_state[\"log_step_size_reg_target\"] = log(10 * init_step_size)", "            adapt_state[\"log_step_size_reg_target\"] = log(init_step_size)"),
+    m("c17-iter-starts-at-one", "R4", '        adapt_state = {\n            "iter": 0,', '        adapt_state = {\n            "iter": 1,'),
+    m("c17-smoothed-starts-at-one", "R4", '            "smoothed_log_step_size": 0.0,', '            "smoothed_log_step_size": 1.0,'),
+    m("c17-welford-mean-init-ones", "R4", '            "mean": np.zeros_like(chain_state.pos),', '            "mean": np.ones_like(chain_state.pos),'),
+    m("c17-twin-target-ifexp", None, '        if self.log_step_size_reg_target is None:\n            adapt_state["log_step_size_reg_target"] = log(10 * init_step_size)\n        else:\n            adapt_state["log_step_size_reg_target"] = self.log_step_size_reg_target\n', '        adapt_state["log_step_size_reg_target"] = self.log_step_size_reg_target if self.log_step_size_reg_target is not None else log(10 * init_step_size)\n', twin=True),
 ]
